@@ -268,6 +268,14 @@ func main() {
 	rangeBlocks := simpleBlocks(sb, true)
 	rrBlocks := simpleBlocks(sb, false)
 	stickyBlocks := balenum.StickyBlocks(st)
+	// complex-path sweep shared with C26 (4 members x 3 topics, every
+	// subscription vector, priors: nothing | every valid complete assignment)
+	cx := balenum.ComplexTier(ev.Thorough())
+	cx.Groups = cx.Groups[:1]
+	if !ev.Thorough() {
+		cx.Groups[0].MaxTotal = 5
+	}
+	stickyBlocks = append(stickyBlocks, balenum.ComplexBlocks(cx)...)
 	for i := range rangeBlocks {
 		jobs = append(jobs, job{balancers["range"], &rangeBlocks[i]})
 	}
@@ -282,6 +290,7 @@ func main() {
 		"range_roundrobin":   fmt.Sprintf("members<=%d, topics<=2 with 1..%d partitions (+1 nonexistent topic), all subscription vectors incl. one special member, dynamic and static(reversed) IDs", sb.maxMembers, sb.maxPer),
 		"range_racks":        fmt.Sprintf("members<=%d on {none,ra,rb}^n, topics<=2 with 1..%d partitions, leaders on {ra,rb}^P", sb.rackMembers, sb.rackPer),
 		"sticky_cooperative": fmt.Sprintf("members<=%d; full prior sweep: total partitions<=%d (<=%d at %d members); special-member sweep: <=%d; rack sweep (2 racks, all placements): <=%d; topics<=2 with 1..3 partitions; count-map insertion orders: %s", st.MaxMembers, st.FullTotal, st.FullTotalAtMax, st.MaxMembers, st.SpecialTotal, st.RacksTotal, map[int]string{0: "one per input, alternating", 1: "one", 2: "both for every input (alternating at 6 partitions)"}[st.Orders]),
+		"sticky_cooperative_complex": cx.String(),
 	})
 
 	balenum.TuneGC(256 << 20)
